@@ -486,3 +486,27 @@ MANIFEST = dict(
     level_text='C20_process_meets_spec (every raw configuration with second counts that fit a time.Duration: the processed configuration or the rejection is exactly what the documented table prescribes), C20_keepalive / C20_refuted_prefix_keepalive (F9, repaired), C20_rejects_incomplete (rejected iff incomplete, error for each missing item, no other outcome), C20_ssv_equiv (for every configuration of the stated domain the option string denotes the same members as the JSON rendering and the text written is plain JSON), C20_ssv_guard_is_boundary - all proved in Coq without axioms.',
     level_note='Trusted: Coq kernel; extraction; encoding/json (black box, exercised on every case through both syntaxes); ASCII model of strings.ToLower; net.JoinHostPort; the regex reading of ck-client.go. Defaults absent from README prose are taken from example_config/ckclient.json.',
     design_ref='DESIGN.md section 6, C20; section 7 F9')
+
+
+# ---- StreamTimeout where it is consumed: "Cloak will not enforce any timeout on TCP connections after it is established"
+# (README); client.RouteTCP applies the configured value to the local connection's first read only.  The driver of C01's
+# relay level (RouteTCP on a local connection that enforces the deadlines armed on it, virtual clock) is run here as well.
+_corr_before_deadlines = correspondence
+_replay_before_deadlines = replay
+
+
+def correspondence(ctx, verdict, pr):
+    res = _corr_before_deadlines(ctx, verdict, pr)
+    import winlib
+    res['broken'] += winlib.c01_deadlines(ctx, verdict)
+    return res
+
+
+def replay(ctx, verdict):
+    if ctx.replay.get('kind') == 'window':
+        import winlib
+        return winlib.replay(ctx, verdict)
+    return _replay_before_deadlines(ctx, verdict)
+
+
+TRUSTED = list(TRUSTED) + ['StreamTimeout at its point of use: harness/client/c01_deadline_test.go (client.RouteTCP inside a testing/synctest bubble on a local connection that enforces the deadlines armed on it)']
